@@ -305,6 +305,12 @@ Section Ops.
       destruct (create_chunk c (s_store s) (idx * cs) (chunk_index_size c idx) false) as [|st|st ps]; simpl; auto.
       + destruct K as (_ & (E & _) & _). congruence.
       + destruct K as (_ & _ & _ & _ & _ & (E & _) & _). congruence.
+    - pose proof (create_chunk_ok files c eq_refl (cfg_laid cs lay) (s_store s) (idx * cs)
+                                  (chunk_index_size c idx) w Hlen) as K.
+      destruct (create_chunk c (s_store s) (idx * cs) (chunk_index_size c idx) w) as [|st|st ps]; simpl; auto.
+      + destruct K as (_ & (E & _) & _). congruence.
+      + destruct K as (_ & _ & _ & _ & _ & (E & _) & _).
+        destruct (xfer _ _ _ _); simpl; [congruence|]. destruct w; simpl; [rewrite write_segs_length|]; congruence.
   Qed.
 
   Theorem run_store_length : forall ops s, length (s_store s) = length files ->
